@@ -96,7 +96,8 @@ type Exec struct {
 	// a load failure now is the C02-E4 recovery clause, not an anomaly.
 	afterCrash bool
 	// wedged: the tree no longer loads; the rest of the history is meaningless.
-	wedged bool
+	wedged  bool
+	touches int
 }
 
 func (x *Exec) violate(prop, oracle, class, detail string, facts map[string]string) {
@@ -169,6 +170,45 @@ func (x *Exec) Do(op Op) error {
 			return infra("edit: %v", err)
 		}
 		x.Env.Stats.Add("op/edit", 1)
+	case "touch":
+		// a source edit that changes no declaration: the file as the CURRENT spec renders it, plus a comment
+		p := m.Pkgs[op.K]
+		for fi, f := range p.Files {
+			if f.Name == op.Path {
+				x.touches++
+				content := m.FileSource(op.K, f, fi == 0) + fmt.Sprintf("\n// edit %d %s\n", x.touches, op.Note)
+				if err := os.WriteFile(filepath.Join(x.Root, p.Dir, f.Name), []byte(content), 0o644); err != nil {
+					return infra("touch: %v", err)
+				}
+			}
+		}
+		x.Env.Stats.Add("op/edit", 1)
+	case "retag":
+		// the tags of one declaration change in place (same line count, so no position moves); from
+		// now on the expectations follow the new spec
+		p := m.Pkgs[op.K]
+		for fi, f := range p.Files {
+			var visit func(ds []*Decl) bool
+			visit = func(ds []*Decl) bool {
+				for _, d := range ds {
+					if d.Kind == "grouped" {
+						if visit(d.Group) {
+							return true
+						}
+					} else if d.Name == op.Path {
+						d.Tags = op.Tags
+						return true
+					}
+				}
+				return false
+			}
+			if visit(f.Decls) {
+				if err := os.WriteFile(filepath.Join(x.Root, p.Dir, f.Name), []byte(m.FileSource(op.K, f, fi == 0)), 0o644); err != nil {
+					return infra("retag: %v", err)
+				}
+			}
+		}
+		x.Env.Stats.Add("op/retag", 1)
 	case "delete":
 		_ = os.Remove(filepath.Join(x.Root, op.Path))
 		x.Env.Stats.Add("op/delete", 1)
